@@ -204,7 +204,7 @@ func (c *ctx) idUnit(u *unit, k *testKey) {
 			u.count("id_edit_extracted_other_key", 1)
 		}
 	}
-	byteEdits(want, true, func(e edit, b []byte) bool {
+	byteEdits(want, true, 0, 1, func(e edit, b []byte) bool {
 		u.evals++
 		got, err := peer.IDFromBytes(b)
 		var got2 peer.ID
